@@ -40,6 +40,8 @@ type Oblig struct {
 	FailedSub        string
 	WitTerms         [][2]string
 	ReplayOut        string
+	ReplayTemplate   string
+	ReplayPkgDir     string
 }
 
 // Gen generates verification conditions for one function (plus inlined callees).
